@@ -303,6 +303,7 @@ class Gen:
 
     def __init__(self, rng):
         self.r = rng
+        self.unit = None    # indentation unit of the program being generated (None: vary per block)
 
     def name(self):
         return self.r.choice(IDENTS)
@@ -356,6 +357,8 @@ class Gen:
         items = []
         n = r.randrange(0, 5)
         seen_kw = seen_dstar = False
+        kwnames = ['k', 'kw', 'é', 'sep', 'end']
+        r.shuffle(kwnames)
         for _ in range(n):
             k = r.randrange(6)
             if k <= 1 and not seen_kw and not seen_dstar:
@@ -366,7 +369,7 @@ class Gen:
                 items.append("**" + self.postfix(d - 1))
                 seen_dstar = True
             else:
-                items.append(f"{r.choice(['k', 'kw', 'é', 'sep'])}={self.expr(d - 1)}")
+                items.append(f"{kwnames.pop()}={self.expr(d - 1)}")
                 seen_kw = True
         sep = r.choice([", ", ",", ",\n    ", " , "])
         return sep.join(items)
@@ -526,7 +529,7 @@ class Gen:
     def stmt(self, d, ind, in_def=False, in_loop=False, in_async=False):
         r = self.r
         e = lambda: self.expr(max(d, 1))
-        sub = ind + r.choice(["    ", "  ", "\t"])
+        sub = ind + (self.unit or r.choice(["    ", "  ", " "]))
         blk = lambda **kw: self.block(d, sub, in_def=kw.get("in_def", in_def), in_loop=kw.get("in_loop", in_loop),
                                       in_async=kw.get("in_async", in_async))
         k = r.randrange(30) if d > 0 else r.randrange(12)
@@ -585,7 +588,7 @@ class Gen:
             cases = ""
             for _ in range(r.randrange(1, 4)):
                 guard = f" if {e()}" if r.randrange(3) == 0 else ""
-                cases += f"{sub}case {self.pattern(2)}{guard}:\n{self.block(d, sub + '  ', in_def, in_loop, in_async)}"
+                cases += f"{sub}case {self.pattern(2)}{guard}:\n{self.block(d, sub + (self.unit or '  '), in_def, in_loop, in_async)}"
             return f"{ind}match {e()}:\n{cases}"
         if k in (19, 20, 21):
             tp = r.choice(["", "", "[T]", "[T: int, *Ts, **P]"])
@@ -621,6 +624,7 @@ class Gen:
         return f"{ind}{self.name()} = {e()}\n"
 
     def program(self):
+        self.unit = self.r.choice([None, None, "\t", "    "])
         d = self.r.choice([1, 2, 2, 3])
         return "".join(self.stmt(d, "") for _ in range(self.r.randrange(1, 5)))
 
